@@ -112,6 +112,17 @@ def p1_p2(ctx, fx, I, B):
             real.append((b, n, i, via, nm))
         copies = [(b, n, nm) for (b, n, i, via, nm) in real if via or (is_alias_call(n))]
         hidden = [(b, n) for (b, n, i, via, nm) in real if n.d["term"].get("resolved") in I.disc_ctors and not via]
+        # `subtree.to_string()` made by the builder itself and handed to the constructor (inside an argument struct or not): the same move
+        # into a disclosure, with the serialisation done one call earlier
+        bv_ = vals(B)
+        for (b, n, i, via, nm) in list(real):
+            if nm == "to_string" and not via and not n.d["term"].get("resolved_local"):
+                for b2, t2 in B.calls():
+                    if t2.get("resolved") in I.disc_ctors:
+                        hc = bv_.call_node(b2)
+                        if any(x is n for k in hc.kids for x in walk(k)):
+                            hidden.append((b2, hc))
+                            real = [r for r in real if not (r[0] == b and r[1] is n)]
         visible = [(b, n) for (b, n, i, via, nm) in real if nm in ("insert", "push") and not via]
         others = [(b, n, nm) for (b, n, i, via, nm) in real if (b, n) not in hidden and (b, n) not in visible and not via and not is_alias_call(n)]
         if copies:
